@@ -281,6 +281,9 @@ type GRPCBroker struct {
 
 	muxer grpcmux.GRPCMuxer
 
+	// listeners are the listeners opened by Accept, closed again by Close.
+	listeners []net.Listener
+
 	sync.Mutex
 }
 
@@ -354,6 +357,13 @@ func (b *GRPCBroker) Accept(id uint32) (net.Listener, error) {
 	if err != nil {
 		return nil, err
 	}
+
+	// Remember the listener so that Close can close it (and thereby remove
+	// its socket file) without depending on when the goroutine serving it
+	// gets to run; at shutdown the process may exit before it does.
+	b.Lock()
+	b.listeners = append(b.listeners, listener)
+	b.Unlock()
 
 	verifhook.Point("grpcbroker.accept.listening")
 	advertiseNet := listener.Addr().Network()
@@ -435,6 +445,14 @@ func (b *GRPCBroker) Close() error {
 	b.o.Do(func() {
 		close(b.doneCh)
 	})
+
+	b.Lock()
+	listeners := b.listeners
+	b.listeners = nil
+	b.Unlock()
+	for _, ln := range listeners {
+		ln.Close()
+	}
 	return nil
 }
 
